@@ -13,7 +13,9 @@ mod transaction_hashes_process;
 mod transactions_process;
 
 #[cfg(feature = "verif-hooks")]
-pub use self::verif_hooks::{verif_block_transactions_verify, verif_compact_block_verify};
+pub use self::verif_hooks::{
+    verif_block_transactions_verify, verif_block_uncles_verify, verif_compact_block_verify,
+};
 use self::block_proposal_process::BlockProposalProcess;
 use self::block_transactions_process::BlockTransactionsProcess;
 pub(crate) use self::compact_block_process::CompactBlockProcess;
@@ -964,6 +966,7 @@ impl CKBProtocolHandler for Relayer {
 #[cfg(feature = "verif-hooks")]
 mod verif_hooks {
     use super::block_transactions_verifier::BlockTransactionsVerifier;
+    use super::block_uncles_verifier::BlockUnclesVerifier;
     use super::compact_block_verifier::CompactBlockVerifier;
     use crate::Status;
     use ckb_types::{core, packed};
@@ -980,5 +983,14 @@ mod verif_hooks {
         transactions: &[core::TransactionView],
     ) -> Status {
         BlockTransactionsVerifier::verify(block, indexes, transactions)
+    }
+
+    /// `BlockUnclesVerifier::verify`
+    pub fn verif_block_uncles_verify(
+        block: &packed::CompactBlock,
+        indexes: &[u32],
+        uncles: &[core::UncleBlockView],
+    ) -> Status {
+        BlockUnclesVerifier::verify(block, indexes, uncles)
     }
 }
